@@ -1214,6 +1214,15 @@ func genEvmScenario(r *hx.Rng, i int) *Scenario {
 	}
 	mk := func(x TxS) {
 		x.Hash = randHash(r)
+		for dup := true; dup; {
+			dup = false
+			for _, y := range sc.Txs {
+				if y.Hash == x.Hash {
+					dup = true
+					x.Hash = hex.EncodeToString(r.Bytes(32))
+				}
+			}
+		}
 		x.Req = nextReq()
 		sc.Txs = append(sc.Txs, x)
 	}
@@ -1236,7 +1245,9 @@ func genEvmScenario(r *hx.Rng, i int) *Scenario {
 	// probe: which addresses did the block create / which beneficiaries exist
 	applyFlags(sc, sc.Height-1, false)
 	root, t := buildParent(sc)
-	for _, rc := range execOnce(sc, root, t).receipts {
+	var probe []*types.Receipt
+	hx.Guard(func() string { probe = execOnce(sc, root, t).receipts; return "" })
+	for _, rc := range probe {
 		if rc.ContractAddress != (common.Address{}) {
 			interest = append(interest, a20(rc.ContractAddress))
 			evmStats["created-addresses"]++
@@ -1259,7 +1270,9 @@ func genEvmScenario(r *hx.Rng, i int) *Scenario {
 		evmStats[fmt.Sprintf("tx type=%d", x.Type)]++
 	}
 	root, t = buildParent(sc)
-	for _, rc := range execOnce(sc, root, t).receipts {
+	probe = nil
+	hx.Guard(func() string { probe = execOnce(sc, root, t).receipts; return "" })
+	for _, rc := range probe {
 		evmStats[fmt.Sprintf("receipt status=%d", rc.Status)]++
 		if rc.GasUsed > 0 {
 			evmStats["receipts with gas"]++
@@ -1464,6 +1477,18 @@ func hasSelfTarget(sc *Scenario) bool {
 
 // nfold executes the scenario n times, each in a fresh AccountDB and a fresh executor context,
 // with GOMAXPROCS varied; returns the distinct fingerprints.
+// outcomes seen before / after the poisoning of the process in the last nfold
+var lastBefore, lastAfter map[string]bool
+var poisonRng *hx.Rng
+
+func mark(i, n int, fp string) {
+	if i < n/2 {
+		lastBefore[fp] = true
+	} else {
+		lastAfter[fp] = true
+	}
+}
+
 func nfold(sc *Scenario, n int) map[string]int {
 	root, t := buildParent(sc)
 	hasContract := false
@@ -1475,8 +1500,17 @@ func nfold(sc *Scenario, n int) map[string]int {
 	orig := sc.Situation
 	defer func() { sc.Situation = orig }()
 	res := map[string]int{}
+	lastBefore, lastAfter = map[string]bool{}, map[string]bool{}
 	procs := []int{1, 2, 4, runtime.NumCPU()}
 	for i := 0; i < n; i++ {
+		if i == n/2 && len(sc.GlobalHeights) == 0 && poisonRng != nil {
+			// poisoned process: execute competing blocks on the same parent and throw them away
+			for k := 0; k < 2; k++ {
+				ps := poisonOf(poisonRng, sc)
+				applyFlags(ps, ps.Height-1, false)
+				hx.Guard(func() string { execOnce(ps, root, t); return "" })
+			}
+		}
 		runtime.GOMAXPROCS(procs[i%len(procs)])
 		if len(sc.GlobalHeights) > 0 {
 			applyFlags(sc, sc.GlobalHeights[i%len(sc.GlobalHeights)], true)
@@ -1494,10 +1528,14 @@ func nfold(sc *Scenario, n int) map[string]int {
 			if root2 != root {
 				res["PARENT-ROOT-DIFFERS "+root2.Hex()]++
 			}
-			res[execOnce(sc, root2, t2).fingerprint()]++
+			fp := hx.Guard(func() string { return execOnce(sc, root2, t2).fingerprint() })
+			res[fp]++
+			mark(i, n, fp)
 			continue
 		}
-		res[execOnce(sc, root, t).fingerprint()]++
+		fp := hx.Guard(func() string { return execOnce(sc, root, t).fingerprint() })
+		res[fp]++
+		mark(i, n, fp)
 	}
 	runtime.GOMAXPROCS(runtime.NumCPU())
 	return res
@@ -1508,6 +1546,17 @@ func nfold(sc *Scenario, n int) map[string]int {
 func classify(sc *Scenario, res map[string]int) (string, string) {
 	if len(sc.GlobalHeights) > 0 {
 		return "flags-from-process-chain-height", "proposal flags are read from common.GetBlockHeight() (the node's own chain top), not from the header being executed"
+	}
+	if len(lastBefore) == 1 && len(lastAfter) == 1 {
+		same := true
+		for k := range lastBefore {
+			if !lastAfter[k] {
+				same = false
+			}
+		}
+		if !same {
+			return "process-history-dependence", "the block gives one result in a clean process and another one after competing blocks were executed and discarded in the same process (process-local side store / cache read on the execution path)"
+		}
 	}
 	rest := map[string]bool{}
 	for k := range res {
@@ -1528,6 +1577,81 @@ func classify(sc *Scenario, res map[string]int) (string, string) {
 
 const testContractData = "608060405234801561001057600080fd5b50610113806100206000396000f3fe6080604052348015600f57600080fd5b506004361060325760003560e01c80631003e2d21460375780631f7b6d32146048575b600080fd5b6046604236600460c5565b605d565b005b60005460405190815260200160405180910390f35b600080546001810182559080527f290decd9548b62a8d60345a988386fc84ba6bc95484008f6362f93160ef3e563018190556040518181527fe7031cd6956b2659170d686871156b5a86ec38e9071dfc7e6863f24e5debc10f9060200160405180910390a150565b60006020828403121560d657600080fd5b503591905056fea2646970667358221220e817b443aba8374c91a43c77972eff026499557eb6382c7d874b09bc17ee81a864736f6c634300080c0033"
 
+
+// freshMinerId: an id no earlier scenario of this process has used, so the process-local side
+// stores (pkCache …) hold nothing for it until this scenario's own executions put it there
+var minerIdCounter uint32
+
+func freshMinerId(r *hx.Rng) []byte {
+	minerIdCounter++
+	return []byte{0xee, byte(minerIdCounter >> 16), byte(minerIdCounter >> 8), byte(minerIdCounter), byte(1 + r.Intn(255))}
+}
+
+// minerApplyData: a miner-apply payload with optional fields absent (publicKey, vrfPublicKey,
+// account, stake): absent fields are where an implementation fills in defaults from somewhere
+func minerApplyData(r *hx.Rng) string {
+	m := types.Miner{Id: freshMinerId(r), Type: byte(r.Intn(2)), Stake: uint64(r.Pick(400, 2000, 5000, 5000, 1))}
+	if r.Chance(1, 2) {
+		m.PublicKey = []byte{1, byte(r.Intn(256))}
+	}
+	if r.Chance(3, 4) {
+		m.VrfPublicKey = []byte{2, byte(r.Intn(256))}
+	}
+	if r.Chance(1, 3) {
+		m.Account = unhex(poolAddrs[r.Intn(len(poolAddrs))])
+	}
+	if r.Chance(1, 8) {
+		m.Stake = 0
+	}
+	d, _ := json.Marshal(m)
+	return string(d)
+}
+
+// poisonOf derives a competing block from the scenario: the same senders and miner ids, but every
+// miner payload completed (all optional fields present, sufficient stake) and the transfers
+// perturbed.  It is executed on the same parent state and DISCARDED in the middle of the N-fold
+// run — what a losing fork block, an abandoned cast or a verified-but-never-added block leaves
+// behind in a process is exactly what may not influence the later executions.
+func poisonOf(r *hx.Rng, sc *Scenario) *Scenario {
+	p := *sc
+	p.Name = sc.Name + "-poison"
+	p.GlobalHeights = nil
+	p.Txs = nil
+	for _, x := range sc.Txs {
+		y := x
+		y.Hash = hex.EncodeToString(r.Bytes(32))
+		switch x.Type {
+		case 2, 5, 6:
+			var m types.Miner
+			if json.Unmarshal([]byte(x.Data), &m) == nil {
+				if len(m.PublicKey) == 0 {
+					m.PublicKey = []byte{9, 9, byte(r.Intn(256))}
+				}
+				if len(m.VrfPublicKey) == 0 {
+					m.VrfPublicKey = []byte{8, byte(r.Intn(256))}
+				}
+				if x.Type == 2 {
+					min := uint64(400)
+					if m.Type == common.MinerTypeProposer {
+						min = 2000
+					}
+					if m.Stake < min {
+						m.Stake = min
+					}
+				}
+				d, _ := json.Marshal(m)
+				y.Data = string(d)
+			}
+		case 100:
+			if r.Bool() {
+				y.Extra = manyTargets(r, nil, 1+r.Intn(3))
+			}
+		}
+		p.Txs = append(p.Txs, y)
+	}
+	return &p
+}
+
 // widen adds transaction kinds the model does not interpret (miner ops, contracts): the searcher
 // needs no model.
 func widen(r *hx.Rng, sc *Scenario) {
@@ -1547,9 +1671,7 @@ func widen(r *hx.Rng, sc *Scenario) {
 			d, _ := json.Marshal(types.ContractData{AbiData: "0x1003e2d20000000000000000000000000000000000000000000000000000000000000462", TransferValue: "1"})
 			x.Type, x.Data, x.Target = 200, string(d), "0x"+poolAddrs[r.Intn(len(poolAddrs))]
 		case 2: // miner apply
-			m := types.Miner{Id: []byte{0xee, byte(i)}, PublicKey: []byte{1}, VrfPublicKey: []byte{2}, Type: byte(r.Intn(2)), Stake: uint64(r.Pick(400, 2000, 5000, 1))}
-			d, _ := json.Marshal(m)
-			x.Type, x.Data = 2, string(d)
+			x.Type, x.Data = 2, minerApplyData(r)
 		case 3: // miner add stake
 			id := []byte{0xee, byte(i)}
 			if len(sc.Miners) > 0 {
@@ -1573,6 +1695,18 @@ func widen(r *hx.Rng, sc *Scenario) {
 		if x.Type != 0 {
 			sc.Txs = append(sc.Txs, x)
 		}
+	}
+}
+
+// forceMinerTxs: 1–3 miner-apply transactions (absent optional fields) from the rich sender
+func forceMinerTxs(r *hx.Rng, sc *Scenario) {
+	if len(sc.Accounts) == 0 {
+		return
+	}
+	rich := sc.Accounts[0].Addr
+	sc.Accounts[0].Bal = e18(100000).String()
+	for k := 1 + r.Intn(3); k > 0; k-- {
+		sc.Txs = append(sc.Txs, TxS{Source: "0x" + rich, Type: 2, Hash: hex.EncodeToString(r.Bytes(32)), Data: minerApplyData(r), Req: uint64(r.Pick(0, 0, 500+k))})
 	}
 }
 
@@ -1617,9 +1751,15 @@ func search(a map[string]string, r *hx.Rng) {
 	}
 	// 3. generated
 	kinds := map[string]int{}
+	poisonRng = r.Fork()
 	for i := 0; i < cases; i++ {
 		var sc *Scenario
-		if i%2 == 1 {
+		if i%4 == 2 {
+			sc = genScenario(r, i, true)
+			widen(r, sc)
+			forceMinerTxs(r, sc)
+			kinds["miner-biased"]++
+		} else if i%2 == 1 {
 			sc = genEvmScenario(r, i)
 			kinds["evm"]++
 		} else {
@@ -1709,6 +1849,7 @@ func main() {
 		if err := json.Unmarshal(b, &sc); err != nil {
 			panic(err)
 		}
+		poisonRng = r.Fork() // the replay, too, poisons the process half-way through
 		res := nfold(&sc, hx.ArgInt(a, "n", 64))
 		for k, v := range res {
 			fmt.Printf("%dx %s\n", v, k)
